@@ -13,10 +13,11 @@ Variable midcheck : bool.
 Variable postcopy : bool.
 Variable recheck : bool.
 Variable freshrule : bool.
+Variable reachrule : bool.
 
-Local Notation run := (run data lock midcheck postcopy recheck freshrule).
-Local Notation steps_ok := (steps_ok data lock midcheck postcopy recheck freshrule).
-Local Notation steps_snap := (steps_snap data lock midcheck postcopy recheck freshrule).
+Local Notation run := (run data lock midcheck postcopy recheck freshrule reachrule).
+Local Notation steps_ok := (steps_ok data lock midcheck postcopy recheck freshrule reachrule).
+Local Notation steps_snap := (steps_snap data lock midcheck postcopy recheck freshrule reachrule).
 
 Lemma run_sinv ls : forall s s',
   inv data zero lock s -> sinv data zero lock s ->
@@ -26,7 +27,7 @@ Proof.
   induction ls as [|l r IH]; intros s s' H Hn E Hok Hsn; cbn in *.
   - inversion E; subst. auto.
   - destruct Hok as [Hl Hr]. destruct Hsn as [Hs1 Hs2].
-    destruct (step data lock midcheck postcopy recheck freshrule s l) as [s1|] eqn:Es; [|discriminate].
+    destruct (step data lock midcheck postcopy recheck freshrule reachrule s l) as [s1|] eqn:Es; [|discriminate].
     eapply IH; [| |exact E|exact Hr|exact Hs2].
     + eapply inv_step; eauto.
     + eapply sinv_step; eauto.
@@ -59,16 +60,16 @@ Definition snap_steps : list (label N) :=
     AppCommit N [F 1 2 99] false;  (* frame 3, after the position *)
     AppCkpt N 2 2%N;               (* backfill up to litestream's mark = the position *)
     LsSync N 1;                    (* the sync goes on: position 2 *)
-    LsSnapRead N ].                (* content = position 1, not 2 *)
+    LsSnapRead N true ].                (* content = position 1, not 2 *)
 
-Example snap_steps_ok : steps_ok N 1000%N true true true true ex_init snap_steps.
+Example snap_steps_ok : steps_ok N 1000%N true true true true true ex_init snap_steps.
 Proof.
   cbn [snap_steps Machine.steps_ok].
   repeat (split; [first [exact I | apply tx_okb_sound; vm_compute; reflexivity]|]; vm_compute Machine.step; cbv iota beta).
   exact I.
 Qed.
 
-Example snap_steps_snap : steps_snap N 1000%N true true true true ex_init snap_steps.
+Example snap_steps_snap : steps_snap N 1000%N true true true true true ex_init snap_steps.
 Proof.
   cbn [snap_steps Machine.steps_snap].
   repeat (split; [reflexivity|]; vm_compute Machine.step; cbv iota beta).
@@ -80,14 +81,14 @@ Example snap_run :
                         map (fun x => (fst x, snd (snd x), map (fst (snd x)) [1; 2]%N)) (snaps N s),
                         map (fst (restore N 0%N 1000%N (firstn 1 (l0 N s)))) [1; 2]%N,
                         map (fst (committed N s)) [1; 2]%N))
-             (run N 1000%N true true true true ex_init snap_steps)
+             (run N 1000%N true true true true true ex_init snap_steps)
   = Some (2, [(1, 2%N, [11; 21]%N)], [11; 21]%N, [99; 21]%N).
 Proof. vm_compute. reflexivity. Qed.
 
 (** * Each side condition dropped *)
 
 Ltac refute_snap E steps pg want got :=
-  match type of E with run N 1000%N ?a ?b ?c ?d ex_init steps = Some ?s =>
+  match type of E with run N 1000%N ?a ?b ?c ?d ?e ex_init steps = Some ?s =>
     let Hv := fresh "Hv" in
     assert (Hv : option_map (fun s => match snaps N s with
                                       | (p, im) :: _ =>
@@ -95,7 +96,7 @@ Ltac refute_snap E steps pg want got :=
                                            fst (restore N 0%N 1000%N (firstn p (l0 N s))) pg, fst im pg)
                                       | [] => (0%N, 0%N, 0%N)
                                       end)
-                            (run N 1000%N a b c d ex_init steps) = Some (want, got))
+                            (run N 1000%N a b c d e ex_init steps) = Some (want, got))
       by (vm_compute; reflexivity);
     rewrite E in Hv; cbn [option_map] in Hv
   end.
@@ -123,16 +124,16 @@ Definition snap_bad_pos_steps : list (label N) :=
     AppCkpt N 1 2%N;               (* ... and it is backfilled *)
     LsOpen N;
     LsSnapPos N true;
-    LsSnapRead N ].
+    LsSnapRead N true ].
 
 Theorem snapshot_position_not_live_refuted :
   exists (s0 : state N) ls s p im,
-    init_ok N 0%N 1000%N s0 /\ run N 1000%N true true true true s0 ls = Some s /\
-    steps_ok N 1000%N true true true true s0 ls /\
+    init_ok N 0%N 1000%N s0 /\ run N 1000%N true true true true true s0 ls = Some s /\
+    steps_ok N 1000%N true true true true true s0 ls /\
     In (p, im) (snaps N s) /\
     ~ img_eq N (restore N 0%N 1000%N (firstn p (l0 N s))) im.
 Proof.
-  destruct (run N 1000%N true true true true ex_init snap_bad_pos_steps) as [s|] eqn:E; [|vm_compute in E; discriminate].
+  destruct (run N 1000%N true true true true true ex_init snap_bad_pos_steps) as [s|] eqn:E; [|vm_compute in E; discriminate].
   exists ex_init, snap_bad_pos_steps, s.
   refute_snap E snap_bad_pos_steps 1%N (2%N, 11%N) 99%N.
   destruct (snaps N s) as [|[p im] r] eqn:Ea; [discriminate|].
@@ -144,9 +145,11 @@ Proof.
   - finish_refute Hv 1%N. assert (11 = 99)%N by (apply Hp; lia). discriminate.
 Qed.
 
-(** a commit restarts the WAL between capturing the position and reading (read
-    mark 0 does not prevent it, chkMu only keeps litestream's own checkpoints
-    out): the reader takes the NEW generation's frames up to the stale offset *)
+(** F19, repaired by 482a715 / a637c7e: a commit restarts the WAL between
+    capturing the position and reading (read mark 0 does not prevent it, chkMu
+    only keeps litestream's own checkpoints out); the reader before those
+    commits ([LsSnapRead false]) takes the NEW generation's frames up to the
+    stale offset *)
 Definition snap_restart_steps : list (label N) :=
   [ AppCommit N [F 1 2 11] false;
     AppCommit N [F 2 2 21] false;
@@ -155,16 +158,16 @@ Definition snap_restart_steps : list (label N) :=
     LsSync N 0;                    (* cursor at frame 2 *)
     LsSnapPos N true;              (* walEndOffset = frame 2 *)
     AppCommit N [F 1 0 99; F 2 2 98] true;  (* restarts the WAL with a two-frame transaction *)
-    LsSnapRead N ].
+    LsSnapRead N false ].
 
 Theorem snapshot_restart_between_refuted :
   exists (s0 : state N) ls s p im,
-    init_ok N 0%N 1000%N s0 /\ run N 1000%N true true true true s0 ls = Some s /\
-    steps_ok N 1000%N true true true true s0 ls /\
+    init_ok N 0%N 1000%N s0 /\ run N 1000%N true true true true true s0 ls = Some s /\
+    steps_ok N 1000%N true true true true true s0 ls /\
     In (p, im) (snaps N s) /\
     ~ img_eq N (restore N 0%N 1000%N (firstn p (l0 N s))) im.
 Proof.
-  destruct (run N 1000%N true true true true ex_init snap_restart_steps) as [s|] eqn:E; [|vm_compute in E; discriminate].
+  destruct (run N 1000%N true true true true true ex_init snap_restart_steps) as [s|] eqn:E; [|vm_compute in E; discriminate].
   exists ex_init, snap_restart_steps, s.
   refute_snap E snap_restart_steps 1%N (2%N, 11%N) 99%N.
   destruct (snaps N s) as [|[p im] r] eqn:Ea; [discriminate|].
@@ -192,16 +195,16 @@ Definition snap_f9_steps : list (label N) :=
     LsOpen N;
     LsSync N 1;                    (* first chunk only *)
     LsSnapPos N true;
-    LsSnapRead N ].
+    LsSnapRead N true ].
 
 Theorem snapshot_between_chunks_after_offline_backfill_refuted :
   exists (s0 : state N) ls s p im,
-    init_ok N 0%N 1000%N s0 /\ run N 1000%N true true true true s0 ls = Some s /\
-    steps_ok N 1000%N true true true true s0 ls /\
+    init_ok N 0%N 1000%N s0 /\ run N 1000%N true true true true true s0 ls = Some s /\
+    steps_ok N 1000%N true true true true true s0 ls /\
     In (p, im) (snaps N s) /\
     ~ img_eq N (restore N 0%N 1000%N (firstn p (l0 N s))) im.
 Proof.
-  destruct (run N 1000%N true true true true ex_init snap_f9_steps) as [s|] eqn:E; [|vm_compute in E; discriminate].
+  destruct (run N 1000%N true true true true true ex_init snap_f9_steps) as [s|] eqn:E; [|vm_compute in E; discriminate].
   exists ex_init, snap_f9_steps, s.
   refute_snap E snap_f9_steps 2%N (3%N, 20%N) 99%N.
   destruct (snaps N s) as [|[p im] r] eqn:Ea; [discriminate|].
@@ -234,16 +237,16 @@ Definition snap_f9b_steps : list (label N) :=
     LsUnlock N;
     LsBumpFail N;                  (* the call returns an error; state as it is *)
     LsSnapPos N false;
-    LsSnapRead N ].
+    LsSnapRead N true ].
 
 Theorem snapshot_after_failed_bump_refuted :
   exists (s0 : state N) ls s p im,
-    init_ok N 0%N 1000%N s0 /\ run N 1000%N true true true true s0 ls = Some s /\
-    steps_ok N 1000%N true true true true s0 ls /\
+    init_ok N 0%N 1000%N s0 /\ run N 1000%N true true true true true s0 ls = Some s /\
+    steps_ok N 1000%N true true true true true s0 ls /\
     In (p, im) (snaps N s) /\
     ~ img_eq N (restore N 0%N 1000%N (firstn p (l0 N s))) im.
 Proof.
-  destruct (run N 1000%N true true true true ex_init snap_f9b_steps) as [s|] eqn:E; [|vm_compute in E; discriminate].
+  destruct (run N 1000%N true true true true true ex_init snap_f9b_steps) as [s|] eqn:E; [|vm_compute in E; discriminate].
   exists ex_init, snap_f9b_steps, s.
   refute_snap E snap_f9b_steps 1%N (2%N, 11%N) 99%N.
   destruct (snaps N s) as [|[p im] r] eqn:Ea; [discriminate|].
@@ -254,3 +257,12 @@ Proof.
     exact I.
   - finish_refute Hv 1%N. assert (11 = 99)%N by (apply Hp; lia). discriminate.
 Qed.
+
+(** the same history with the guards of 482a715 / a637c7e: the read fails, no
+    snapshot is produced *)
+Example snap_restart_fixed_run :
+  option_map (fun s => (length (snaps N s), snap N s))
+             (run N 1000%N true true true true true ex_init
+                  (firstn 7 snap_restart_steps ++ [LsSnapRead N true]))
+  = Some (0, None).
+Proof. vm_compute. reflexivity. Qed.
